@@ -1,0 +1,6 @@
+//go:build !verif
+
+package reactive
+
+// verifWaitGroupAddWindow is a no-op outside of verification builds (see verif_on.go).
+func verifWaitGroupAddWindow() {}
